@@ -1,6 +1,7 @@
 import SamlModel.Generated.FnDriver
 import SamlModel.Model.ChkDriver
 import SamlModel.Model.SsoDriver
+import SamlModel.Model.CbDriver
 import SamlModel.Exec.C16
 /-! Driver.step: dispatch of one protocol line.  Unknown or unparsable ops yield `bad-op`. -/
 namespace Driver
@@ -12,6 +13,7 @@ def step (line : String) : String :=
     | some toks => " ".intercalate toks
     | none => "bad-op"
   | "sso" :: args => (SsoDriver.run args).getD "bad-op"
+  | "cb" :: args => (CbDriver.run args).getD "bad-op"
   | "chk" :: args => (ChkDriver.run args).getD "bad-op"
   | _ => "bad-op"
 
